@@ -28,6 +28,8 @@ func checkC17(c *Ctx) {
 	c.Rule("C17/R6", "quartile interpolation (R8): with k the integer part of 1/3 + p(N+1/3), Percentile returns x[0] for k <= 0, x[N-1] for k >= N and x[k-1] + frac (x[k] - x[k-1]) otherwise — evaluated for N = 5 and every k from -1 to 6 by answering the clamp conditions from (k, N)")
 	c.Rule("C17/R9", "retained values stay in input order (same rule as C12/R8): the quartile computation sorts a copy, never the measurements it was handed")
 	c.Rule("C17/R8", "the delta tests see the retained values only: nothing on the way from TTest/UTest (including methods of adapter types they hand to the statistics package) reads Metrics.Values")
+	c.Rule("C17/R12", "a configuration is a column from the moment it is added: every exported Collection method that feeds results under a configuration name stores into Configs on every path")
+	c.Rule("C17/R11", "the t-test behind DeltaTest=TTest is the documented one (same rules as C12/R1 and R2): guards (two samples are refused only when both variances are zero), statistic and degrees of freedom")
 	c.Rule("C17/R10", "the geomean row's delta follows the same formula as a benchmark row's: (second geomean / first geomean - 1)*100, printed with %+.2f%%")
 	c.Rule("C17/R7", "the geometric mean behind the geomean row accumulates in the log domain (same rule as C12/R7): no running product of raw means")
 	p := mustLoad(c, loadOpts{}, "./benchstat", "./internal/stats", "./storage/benchfmt")
@@ -42,6 +44,11 @@ func checkC17(c *Ctx) {
 	c17Retained(c, p)
 	c12NoReorder(c, p, "C17/R9")
 	c17GeomeanDelta(c, p)
+	c17ConfigRegistered(c, p)
+	// the delta test's p-value is the test's: the t-tests' guards and closed forms (same rules as C12/R1 and R2)
+	c.Under("C12/R1", "C17/R11", func() {
+		c.Under("C12/R2", "C17/R11", func() { c12TTests(c, p) })
+	})
 }
 
 // c17GeomeanDelta (C17/R10): the geomean row's delta is the same percentage as a benchmark row's, taken between the
@@ -1151,4 +1158,50 @@ func c17MetricTest(fn *ssa.Function, name string) int {
 		}
 	})
 	return res
+}
+
+// c17ConfigRegistered (C17/R12): a configuration is a column from the moment it is added, also when it contributes no
+// benchmark line: every exported method of Collection that feeds results under a configuration name stores into
+// Configs on every path (the store dominates each return), rather than leaving it to the first metric that turns up.
+func c17ConfigRegistered(c *Ctx, p *Prog) {
+	const R = "C17/R12"
+	cfgF := p.Field("benchstat", "Collection", "Configs")
+	add := p.Method("benchstat", "Collection", "addResult")
+	if cfgF == nil || add == nil {
+		c.Undecided(R, "anchor:Collection.Configs/addResult", "", "not found")
+		return
+	}
+	n := 0
+	for _, fn := range p.Funcs("benchstat") {
+		if fn.Signature.Recv() == nil || recvName(fn.Signature.Recv().Type()) != "Collection" || fn.Object() == nil || !fn.Object().Exported() {
+			continue
+		}
+		feeds := false
+		eachInstr(fn, func(_ *ssa.BasicBlock, in ssa.Instruction) {
+			if call, ok := in.(*ssa.Call); ok && call.Call.StaticCallee() == add {
+				feeds = true
+			}
+		})
+		if !feeds {
+			continue
+		}
+		n++
+		stores := storesToField(fn, cfgF)
+		okAll := len(stores) > 0
+		for _, b := range fn.Blocks {
+			if _, isRet := b.Instrs[len(b.Instrs)-1].(*ssa.Return); !isRet {
+				continue
+			}
+			dom := false
+			for _, st := range stores {
+				if st.Block() == b || st.Block().Dominates(b) {
+					dom = true
+				}
+			}
+			okAll = okAll && dom
+		}
+		c.Check(okAll, R, fnName(fn)+":registers-config", p.pos(fn.Pos()), "the configuration is registered on every path",
+			"the method feeds results under a configuration name without registering the name itself on every path: a configuration none of whose lines is a benchmark line then has no column, and a three-way comparison with an empty middle configuration turns into an old/new/delta table of the outer two")
+	}
+	c.Floor(R, "exported methods feeding results under a configuration", n, 2)
 }
